@@ -2,6 +2,7 @@ package main
 
 import (
 	"fmt"
+	"go/token"
 	"go/types"
 	"strings"
 
@@ -39,6 +40,16 @@ func (f *Frame) bindLoopLocals(con *Contract, li *loopInfo, phiVals map[*ssa.Phi
 				if d.IsAddr {
 					continue
 				}
+				// the variable must be in scope at the loop (another variable of the same name in a
+				// sibling scope is not meant) and the reference must be executed before the loop
+				if lp := loopPos(li); lp.IsValid() {
+					if o := d.Object(); o != nil && o.Parent() != nil && !o.Parent().Contains(lp) {
+						continue
+					}
+				}
+				if !d.Block().Dominates(li.header) {
+					continue
+				}
 				v := d.X
 				vi, isInstr := v.(ssa.Instruction)
 				if isInstr {
@@ -67,6 +78,11 @@ func (f *Frame) bindLoopLocals(con *Contract, li *loopInfo, phiVals map[*ssa.Phi
 				if !d.IsAddr {
 					continue
 				}
+				if lp := loopPos(li); lp.IsValid() {
+					if o := d.Object(); o != nil && o.Parent() != nil && !o.Parent().Contains(lp) {
+						continue
+					}
+				}
 				if pv, ok := d.X.Type().Underlying().(*types.Pointer); ok && types.Identical(pv.Elem(), pt) {
 					if av, ok := f.vals[d.X]; ok {
 						found = f.loadFrom(mem, pt, av[0], av[1])
@@ -81,6 +97,33 @@ func (f *Frame) bindLoopLocals(con *Contract, li *loopInfo, phiVals map[*ssa.Phi
 		out = append(out, found)
 	}
 	return out, nil
+}
+
+// loopPos: a source position inside the loop statement.
+func loopPos(li *loopInfo) token.Pos {
+	scan := func(b *ssa.BasicBlock) token.Pos {
+		for _, in := range b.Instrs {
+			switch in.(type) {
+			case *ssa.Phi, *ssa.DebugRef:
+				continue
+			}
+			if in.Pos().IsValid() {
+				return in.Pos()
+			}
+		}
+		return token.NoPos
+	}
+	if p := scan(li.header); p.IsValid() {
+		return p
+	}
+	for _, b := range li.header.Parent().Blocks {
+		if li.body[b] {
+			if p := scan(b); p.IsValid() {
+				return p
+			}
+		}
+	}
+	return token.NoPos
 }
 
 func (f *Frame) paramVals() [][]*Term {
